@@ -878,6 +878,23 @@ def _run_labelwise(case, r):
                     regionwise(cell, (np.asarray(got) != 0).reshape(shape), wants, a, thresholds=thr, mask=mname)
                     if mname == "partial":
                         digest.append(np.asarray(got).tolist())
+                    # one threshold pair for ALL labels, in every spelling the constructor documents
+                    # (scalar / per-label list, independently for the lower and the upper bound): the
+                    # label-wise model is then the homogeneous model on the whole signal
+                    ulo, uhi = 0.125, 0.75
+                    cell_u = f"C14/labelwise/threshold-uniform/signal={form}/mask={'none' if mask is None else 'given'}"
+                    want_u = ref_threshold(a, ulo, uhi, mask)
+                    for tag, lo_arg, hi_arg in (("scalar,scalar", ulo, uhi), ("list,scalar", [ulo] * L, uhi), ("scalar,list", ulo, [uhi] * L), ("array,scalar", np.full(L, ulo), uhi), ("scalar,None", ulo, None)):
+                        try:
+                            um = darsia.StaticThresholdModel(lo_arg, hi_arg, labels=lab_f)
+                        except Exception as e:  # noqa: BLE001
+                            r.fail(cell_u, "label-wise threshold model accepts scalar and per-label bounds", spelling=tag, exception=f"{type(e).__name__}: {e}")
+                            continue
+                        got_u = _apply(r, cell_u, um, form, a) if mask is None else _apply(r, cell_u, um, form, a, mask.copy())
+                        if got_u is None:
+                            continue
+                        w = want_u if hi_arg is not None else ref_threshold(a, ulo, None, mask)
+                        r.check(np.array_equal(np.asarray(got_u) != 0, w), cell_u, "with the same bounds on every label the label-wise model equals (lower < x) & (x < upper) & mask everywhere", spelling=tag, got=np.asarray(got_u), want=w, signal=a)
     r.outcome(("labelwise", kind, case["blocks"], digest))
 
 
